@@ -212,6 +212,11 @@ func (fr *Frame) intercept(st *State, fn *ssa.Function, pkg string, args []Val, 
 			ex.set(st, "FileClosed", Store(fc, f, TFalse))
 		}
 		return Val{Tup: []Val{{T: f}, {T: e}}}, true
+	case "github.com/hashicorp/serf/serf.EventType.String":
+		// the name of an event kind: a pure function of the kind (the serf package is outside the agent's scope)
+		if !ex.w.inScope(pkg) {
+			return fr.pureCall(st, fn, full, args), true
+		}
 	case "sync/atomic.Value.Load":
 		// atomic.Value: all values ever stored have one concrete type (Store panics otherwise), so what another
 		// thread may have stored since is an arbitrary value of the type of the value last seen here
